@@ -179,9 +179,12 @@ def r02_6(ctx):
         q = ctx.explore(m[role])
         pubs = q.prim_edges({'publish_replace', 'publish_excl'})
         mk = [e for e in q.prim_edges('ns_create_dir') if path_class(ctx, q, arg_role(q.E[e][2], 'path')) in ('parent(Base/Key)', 'Base')]
-        tested = q.edges(lambda ev: ev['k'] == 'tested')
         oks = q.terminals(lambda ev: ev['k'] == 'ret' and ev.get('variant') == 'Ok')
         attempt = pubs + [e for e in q.prim_edges('meta_times') if path_class(ctx, q, arg_role(q.E[e][2], 'path')) == 'Value']
+        # "the first attempt is seen to have failed": control leaves a function of the publish body with Err
+        pub_fns = {k for k in ctx.B if k != m[role] and (ctx.cg.effects(k) & {'publish_replace', 'publish_excl'})}
+        tested = q.edges(lambda ev: ev['k'] == 'leave' and ev['key'] in pub_fns and ev.get('ret') == 1 and
+                         ctx.T[ctx.B[ev['key']]['locals'][0]['ty']].get('adt') == 'std::result::Result')
         # (a) after the first attempt is seen to have failed, an Ok exit needs a further attempt
         esc = q.must_follow(tested, attempt, oks)
         # (b) on that way the directory can be (re)created: failure -> mkdir -> attempt is a feasible path
